@@ -1,10 +1,10 @@
 package eng
 
 import (
-	"sync"
 	"go/token"
 	"go/types"
 	"strings"
+	"sync"
 
 	"golang.org/x/tools/go/ssa"
 )
